@@ -1,6 +1,9 @@
 //! Provides a simple LCG implementation for generating random numbers.
 
+#[cfg(not(humphrey_verif))]
 use std::time::SystemTime;
+#[cfg(humphrey_verif)]
+use humsim::time::SystemTime;
 
 /// Represents a linear congruential generator, used to generate random `u32` numbers.
 #[derive(Clone, Debug, PartialEq, Eq)]
